@@ -716,16 +716,40 @@ class Stmts(Calls):
         executed in an isolated fork whose path condition starts empty (conditions are collected relative to st)"""
         sub = st.fork()
         base = len(sub.pc)
+        base_d = len(sub.dec)
         sub.stack.append(Frame({}, len(sub.stack) - 1, sub.frame.globs, sub.frame.qualname))
         if isinstance(idx, V):
             sub.bound = list(st.bound) + [idx.t]
         res = []
+        self.last_element_facts = []
+        self.last_raise_facts = []
         for s, c in self.assign(target, f(idx), sub):
             if c is not None:
                 raise Outside("raising assignment in comprehension")
             for s2, vs in self.ev_list(exprs, s):
-                res.append((s2, vs, self._and(s2.pc[base:])))
+                # outcomes are told apart by their decisions; everything else assumed on the way (callee post-conditions)
+                # is a consequence that holds for the element whenever that outcome is taken
+                dec = self._and(s2.dec[base_d:])
+                res.append((s2, vs, dec))
+                facts = [x for x in s2.pc[base:] if not any(x is d_ or x.eq(d_) for d_ in s2.dec[base_d:])]
+                if facts and not isinstance(vs, Raised):
+                    self.last_element_facts.append((dec, self._and(facts)))
+                if isinstance(vs, Raised):
+                    self.last_raise_facts.append((dec, self._and(facts)))
         return res
+
+    def raising_element(self, i, wj, inrange):
+        """formula: element wj is in range and took one of the raising outcomes (its decisions and what was assumed
+        on that outcome, e.g. the callee's raises_only_if)"""
+        alts = [z3.And(self.b(d), self.b(f)) for d, f in self.last_raise_facts]
+        return z3.substitute(z3.And(inrange, z3.Or(*alts) if len(alts) > 1 else alts[0]), (i, wj))
+
+    def assume_element_facts(self, st, i, inrange):
+        """forall i in range: outcome decisions(i) ==> facts assumed on that outcome (i)"""
+        for dec, facts in getattr(self, 'last_element_facts', []):
+            if not _is_true(facts):
+                st.assume(z3.ForAll([i], z3.Implies(z3.And(inrange, self.b(dec)), self.b(facts))))
+        self.last_element_facts = []
 
     def comprehension(self, comp, st, kind):
         target, iter_e, ifs, elt = self.comp_parts(comp)
@@ -793,14 +817,18 @@ class Stmts(Calls):
             # some element makes the comprehension raise
             rcond = self._or([c for _, _, c in raising])
             s_r = st.fork()
-            s_r.assume(z3.Exists([i], z3.And(inrange, self.b(rcond))))
+            wj = self.fresh_term('raising_at', z3.IntSort())       # skolem: an element whose evaluation raises
+            s_r.assume(self.raising_element(i, wj, inrange))
             if self.feasible(s_r):
                 yield s_r, Raised(raising[0][1].exc)
-            st.assume(z3.ForAll([i], z3.Implies(inrange, z3.Not(self.b(rcond)))))
         if not normal:
             return
+        # on the non-raising path every element took one of the normal outcomes (a raising outcome may share its
+        # decisions with a normal one - e.g. which exception class a callee raises - so "not raising" is NOT assumed)
         if not st.spec and any(not _is_true(c) for _s, _v, c in normal):
             st.assume(z3.ForAll([i], z3.Implies(inrange, self.b(self._or([c for _s, _v, c in normal])))))
+        if not st.spec:
+            self.assume_element_facts(st, i, inrange)
         # merged element value and filter condition as functions of i
         ety = None
         for s2, vs, c in normal:
@@ -832,10 +860,27 @@ class Stmts(Calls):
             st.assume(z3.ForAll([k, k2], z3.Implies(z3.And(0 <= k, k < k2, k2 < z3.Length(r.t)), idx(k) < idx(k2))))
             st.assume(z3.ForAll([i], z3.Implies(z3.And(inrange, cond_t),
                                                 z3.And(0 <= inv(i), inv(i) < z3.Length(r.t), idx(inv(i)) == i))))
+            # if every element passes the filter, nothing is dropped (a strictly increasing map onto 0..n-1 is the identity)
+            # stated with a skolem witness w for "some element fails the filter" (same formula, quantifier-free shape)
+            w = self.fresh_term('dropped_at', z3.IntSort())
+            some_fail = z3.substitute(z3.And(inrange, z3.Not(cond_t)), (i, w))
+            base_seq = self._identity_source(val_t, i, nt)
+            ground_part = z3.Length(r.t) == nt if base_seq is None else z3.And(z3.Length(r.t) == nt, r.t == base_seq)
+            st.assume(z3.Or(some_fail, ground_part))                                                  # quantifier-free
+            st.assume(z3.Or(some_fail, z3.ForAll([k], z3.Implies(z3.And(0 <= k, k < nt), idx(k) == k))))
         if kind == 'raw' or st.spec:
             yield st, r
         else:
             yield st, self.new_container(st, 'list', r)
+
+    @staticmethod
+    def _identity_source(val_t, i, nt):
+        """if the element expression is seq[i] for a sequence of length nt, that sequence"""
+        if z3.is_app(val_t) and val_t.decl().kind() == z3.Z3_OP_SEQ_NTH and val_t.arg(1).eq(i):
+            base = val_t.arg(0)
+            if z3.simplify(z3.Length(base) == nt).eq(z3.BoolVal(True)) or z3.Length(base).eq(nt):
+                return base
+        return None
 
     def dict_comprehension(self, e, st):
         raise Outside("dict comprehension")
@@ -904,16 +949,17 @@ class Stmts(Calls):
             rcond = self._or([c for _, _, c in raising])
             s_r = st.fork()
             j = self.fresh_term('j', z3.IntSort())
-            s_r.assume(z3.And(j >= 0, j < nt, z3.substitute(self.b(rcond), (i, j))))
+            s_r.assume(self.raising_element(i, j, inrange))
             if self.feasible(s_r):
                 s_r.trace.append("L%s:sum-element-raises" % comp.lineno)
                 yield s_r, Raised(raising[0][1].exc)
-            st.assume(z3.ForAll([i], z3.Implies(inrange, z3.Not(self.b(rcond)))))
         if not normal:
             return
         if not st.spec and any(not _is_true(c) for _s, _v, c in normal):
             # what holds for every element on the non-raising outcomes (callee post-conditions, branch conditions)
             st.assume(z3.ForAll([i], z3.Implies(inrange, self.b(self._or([c for _s, _v, c in normal])))))
+        if not st.spec:
+            self.assume_element_facts(st, i, inrange)
         val_t = None
         for s2, vs, c in reversed(normal):
             vt = self.term(vs[-1], INT, s2)
